@@ -18,10 +18,26 @@ version's own descriptor); the verdict evaluates `Spec.Reflection` on the *obser
   descriptor-decodes-to-registered  every descriptor answer decodes to one of the registered descriptors
   services-chosen / services-exactly-declared / services-only-declared / services-all-declared
   answers-every-request           a stream without error has one answer per request
+  service-reachable               a call of ServerReflectionInfo is accepted (whatever carries it: the generated
+                                  server itself, `Routes`, `transport::Server` behind a `Channel`)
+  route-name-is-protocol-name     the generated servers register under the protocol's service names
+  own-service-advertised-under-route-name   with the own descriptor included, the name a server is routed by is
+                                  a service that descriptor declares (so what ListServices advertises can be called)
+  own-descriptor-declares-protocol-service   the descriptor a version includes as its own declares that version's
+                                  ServerReflection service
   versions-agree                  v1 and v1alpha answer identically: literally when the own descriptors
                                   are not included; otherwise on every stream up to the first request
                                   that names something of an own descriptor, service lists up to the
                                   services the own descriptors declare
+
+A `drive <via> <seq|par> <ops>` section says HOW the case is driven.  `ops` is the builder program
+(r = next registration, n = next `with_service_name`, i / o = `include_reflection_service(true /
+false)`): the model runs it call by call (`Reflection.Builder.run`), the oracle reads `inc`, `chosen`,
+`regs` of the case, which must be what the documented API says the program configures
+(`Spec.Reflection.includeOf` …; otherwise the case is bad).  `via` and seq / par / step are not inputs of
+the model at all: the transport, the concurrency of streams and the pacing of the requests (all sent
+up front, or each only after the previous answer was read) must be invisible, so the same
+prediction and the same clauses apply to every way of driving.
 
 Comparison with the model (DESIGN §3.3): an error is its status code (`err <code>`; its class is
 the request it answers, i.e. its position), a builder error is its variant; message texts are on
@@ -148,6 +164,10 @@ structure Case where
   regs : List CReg
   streams : List (List Reflection.Request)
   own : Option (File × File)
+  via : String := "direct"
+  par : Bool := false
+  /-- the builder program; `none`: registrations, names, `include_reflection_service(inc)` -/
+  ops : Option (List Char) := none
 
 def pCase : PM Case := do
   expect "inc"
@@ -172,7 +192,17 @@ def pCase : PM Case := do
       pure (some (a, b))
     else pure none
   let rest ← get
-  if rest.isEmpty then pure { inc, chosen, regs, streams, own } else failure
+  if rest.isEmpty then pure { inc, chosen, regs, streams, own } else do
+    expect "drive"
+    let via ← tok
+    if !(via = "direct" || via = "routes" || via = "h2" || via = "h2z") then failure
+    let p ← tok
+    -- seq / par / step (lock-step: request i+1 only after answer i): none of them is an input of the model
+    let par ← if p = "par" then pure true else if p = "seq" || p = "step" then pure false else failure
+    let w ← tok
+    let ops := if w = "-" then [] else w.toList
+    let rest ← get
+    if rest.isEmpty then pure { inc, chosen, regs, streams, own, via, par, ops := some ops } else failure
 
 /-! ### model side -/
 
@@ -237,9 +267,51 @@ def streamText (sortSvcs : Bool) (files : List (File × String)) (st : Reflectio
      | none => ["end"]
      | some c => [s!"err {c.toNat}"]) ++ ["]"]
 
+/-- the builder program of the case as a word -/
+def Case.word (c : Case) : List Char :=
+  match c.ops with
+  | some w => w
+  | none => List.replicate c.regs.length 'r' ++ List.replicate (c.chosen.getD []).length 'n'
+      ++ [if c.inc then 'i' else 'o']
+
+/-- the word as the oracle reads it -/
+def callsOf : List Char → Option (List Spec.Reflection.Call)
+  | [] => some []
+  | ch :: r => do
+    let k ← if ch = 'r' then some Spec.Reflection.Call.register
+      else if ch = 'n' then some .serviceName
+      else if ch = 'i' then some (.includeReflection true)
+      else if ch = 'o' then some (.includeReflection false) else none
+    let rest ← callsOf r
+    pure (k :: rest)
+
+/-- `inc`, `chosen`, `regs` of the case are what the documented API says the program configures -/
+def Case.consistent (c : Case) : Bool :=
+  match callsOf c.word with
+  | none => false
+  | some cs =>
+    Spec.Reflection.registrationsOf cs == c.regs.length
+      && Spec.Reflection.namesOf cs == (c.chosen.getD []).length
+      && Spec.Reflection.includeOf cs == c.inc
+
+/-- the word as calls on the model's builder: the k-th `r` is the k-th registration, the k-th `n`
+the k-th chosen name -/
+def builderOps : List Char → List Reflection.Reg → List Name → List Reflection.BuilderOp
+  | [], _, _ => []
+  | ch :: w, regs, names =>
+    if ch = 'r' then
+      match regs with
+      | r :: regs' => .register r :: builderOps w regs' names
+      | [] => builderOps w regs names
+    else if ch = 'n' then
+      match names with
+      | n :: names' => .withServiceName n :: builderOps w regs names'
+      | [] => builderOps w regs names
+    else .includeReflectionService (ch = 'i') :: builderOps w regs names
+
 def modelVersion (c : Case) (own : Option File) : String :=
-  let cfg : Reflection.Config :=
-    { regs := c.regs.map toReg, chosen := c.chosen, own := own.map (fun o => [o]) }
+  let b := Reflection.Builder.run (builderOps c.word (c.regs.map toReg) (c.chosen.getD []))
+  let cfg : Reflection.Config := b.config (match own with | some o => [o] | none => [])
   match Reflection.build cfg with
   | .error e => errText e
   | .ok st =>
@@ -252,7 +324,7 @@ inductive OAns where
   | fd (i : Nat) (bytes : Option Bytes) (raw : String) | ext | svcs (l : List Name) | junk (what : String)
 
 inductive OEnd where
-  | fin | err (code : Nat) | junk
+  | fin | err (code : Nat) | callErr | stalled | junk
 
 inductive OBuild where
   | err | ok (streams : List (List OAns × OEnd)) | junk
@@ -272,6 +344,8 @@ def oStream : Nat → List String → List OAns → Option ((List OAns × OEnd) 
     match ts with
     | "end" :: "]" :: r => some ((acc.reverse, .fin), r)
     | "err" :: c :: "]" :: r => some ((acc.reverse, .err (c.toNat?.getD 0)), r)
+    | "call-err" :: _ :: "]" :: r => some ((acc.reverse, .callErr), r)
+    | "stalled" :: "]" :: r => some ((acc.reverse, .stalled), r)
     | "r1" :: "fd" :: i :: w :: r => match i.toNat? with
         | some i => oStream fuel r (.fd i (unhex w) w :: acc)
         | none => none
@@ -369,6 +443,9 @@ def judgeStream (c : Case) (files : List File) : List Reflection.Request → Lis
   | _ :: _, [], .fin => [("answers-every-request", false)]
   | [], [], .err _ => [("error-without-request", false)]
   | rq :: _, [], .err code => judgeEnd files rq.messageRequest code
+  | _, [], .callErr => [("service-reachable", false)]
+  -- a lock-step client sent a request (or closed its side) and got nothing back
+  | _, [], .stalled => [("answers-every-request", false)]
   | _, [], .junk => [("stream-shape", false)]
 
 def judgeStreams (c : Case) (files : List File) : List (List Reflection.Request) → List (List OAns × OEnd) → List (String × Bool)
@@ -443,6 +520,20 @@ def versionsAgree (c : Case) (t1 t1a : List String) (b1 b1a : OBuild) : Bool :=
     | .ok s1, .ok s1a => agreeStreams c o1 o1a c.streams s1 s1a
     | _, _ => false
 
+open Spec.Reflection in
+/-- the `names <v1> <v1alpha>` tokens of a case driven through `Routes` / `transport::Server` -/
+def judgeNames (c : Case) : List String → List (String × Bool)
+  | [] => []
+  | ["names", a, b] =>
+    match unhex a, unhex b with
+    | some a, some b =>
+      [("route-name-is-protocol-name", decide (a = protocolNameV1) && decide (b = protocolNameV1alpha)),
+       ("own-service-advertised-under-route-name", match c.own with
+          | some (o1, o1a) => declaresService o1 a && declaresService o1a b
+          | none => true)]
+    | _, _ => [("observed-shape", false)]
+  | _ => [("observed-shape", false)]
+
 def splitAt (ts : List String) (marker : String) : List String × List String :=
   (ts.takeWhile (· ≠ marker), (ts.dropWhile (· ≠ marker)).drop 1)
 
@@ -453,19 +544,34 @@ def handle (case obs : List String) : String × String :=
     | [] => case
   match (pCase.run case) with
   | some (c, _) =>
+    if !c.consistent then bad else
     let own1 := c.own.map (·.1)
     let own1a := c.own.map (·.2)
     let m1 := modelVersion c own1
+    let m1a := modelVersion c own1a
     let cls := if m1.startsWith "ok" then "built"
       else if m1.startsWith "build-err decode" then "rejected-undecodable" else "rejected-unnamed"
-    let model := cls ++ " v1 " ++ m1 ++ " v1a " ++ modelVersion c own1a
+    -- through `Routes` / `transport::Server` the harness also reports the names the servers are routed by
+    let names := if c.via ≠ "direct" && m1.startsWith "ok" && m1a.startsWith "ok" then
+        " names " ++ hex Reflection.serverNameV1 ++ " " ++ hex Reflection.serverNameV1alpha
+      else ""
+    let model := cls ++ " v1 " ++ m1 ++ names ++ " v1a " ++ m1a
     let v := match obs with
       | _ :: "v1" :: rest =>
         let (o1, o1a) := splitAt rest "v1a"
-        let b1 := (oBuild o1).1
+        let (b1, rest1) := oBuild o1
         let b1a := (oBuild o1a).1
+        -- the answers of v1 without the trailing `names` tokens
+        let o1s := o1.take (o1.length - rest1.length)
         let clauses := judgeVersion c own1 b1 ++ judgeVersion c own1a b1a
-          ++ [("versions-agree", versionsAgree c o1 o1a b1 b1a)]
+          ++ judgeNames c rest1
+          -- the descriptor a version includes as its own is that version's reflection.proto
+          ++ (match c.own with
+              | some (x1, x1a) => [("own-descriptor-declares-protocol-service",
+                  Spec.Reflection.declaresService x1 Spec.Reflection.protocolNameV1
+                    && Spec.Reflection.declaresService x1a Spec.Reflection.protocolNameV1alpha)]
+              | none => [])
+          ++ [("versions-agree", versionsAgree c o1s o1a b1 b1a)]
         verdict clauses
       | _ => "fail:observed-shape"
     (model, v)
